@@ -513,15 +513,15 @@ template<typename Alloc>
 void splinetable<Alloc>::write_fits_core(fitsfile* fits) const{
 	int error = 0;
 	/*
-	 * Write the coefficients
+	 * Create the image for the coefficients
 	 * Fits stores arrays in a sort-of Fortran-like way,
 	 * so we need to write the axes in reverse order.
 	 * Note that the strides will not need to be written explicitly,
 	 * as they can be reconstructed from naxes.
 	 */
+	uint64_t nelements=1;
 	{
 		std::unique_ptr<long[]> naxes(new long[ndim]);
-		uint64_t nelements=1;
 		for(uint32_t i=0; i<ndim; i++) {
 			naxes[i] = this->naxes[ndim - i - 1];
 			nelements *= naxes[i];
@@ -529,15 +529,12 @@ void splinetable<Alloc>::write_fits_core(fitsfile* fits) const{
 		fits_create_img(fits, FLOAT_IMG, ndim, naxes.get(), &error);
 		if (error != 0)
 			throw std::runtime_error("Failed to create FITS image for spline coefficients");
-	
-		std::unique_ptr<long[]> fpixel(new long[ndim]);
-		std::fill_n(fpixel.get(),ndim,1L);
-		fits_write_pix(fits, TFLOAT, fpixel.get(), nelements, &coefficients[0], &error);
-		if (error != 0)
-			throw std::runtime_error("Failed to write coefficients to FITS image");
 	}
 	
 	// Write out header information
+	// This is done before the coefficients are written: a header which outgrows
+	// its block after the data are in place makes CFITSIO move all of the data,
+	// and CFITSIO does not report I/O errors which occur while it does so.
 	const char typeString[]="Spline Coefficient Table";
 	fits_write_key(fits, TSTRING, "TYPE", (void*)&typeString, NULL, &error);
 	if (error != 0)
@@ -574,6 +571,15 @@ void splinetable<Alloc>::write_fits_core(fitsfile* fits) const{
 			throw std::runtime_error("Failed to write aux entry");
 	}
 	// done with headers
+	
+	// Write the coefficients
+	{
+		std::unique_ptr<long[]> fpixel(new long[ndim]);
+		std::fill_n(fpixel.get(),ndim,1L);
+		fits_write_pix(fits, TFLOAT, fpixel.get(), nelements, &coefficients[0], &error);
+		if (error != 0)
+			throw std::runtime_error("Failed to write coefficients to FITS image");
+	}
 	
 	// Write knot vectors
 	for(uint32_t i=0; i<ndim; i++) {
